@@ -17,7 +17,8 @@ CHECKS = {
         "varies within deviation 1 (quick) / 2 (thorough)."),
  "C02": dict(engine="E1 typed-read explorer + linked chains + scene graphs + sample files", cat="exploration", ref="DESIGN.md 4 C02",
    technique="exhaustive enumeration of save/query histories (<= 3 operations) over the E1 corpus, reference function on histories",
-   text="All histories over {raw save, default save, read-only query battery} up to length 3 (5 representative ones in quick) on every sample file and on the synthesised single-block files, "
+   text="All histories over {raw save, default save, read-only query battery} up to length 3, and over all four save option sets (also optimize-only, sort-only) up to length 2 "
+        "(8 representative histories in quick), on every sample file, scene graph, linked chain and synthesised single-block file, "
         "compared with twin objects after canonical string-table renumbering, plus three consecutive writes of every synthesised block; the logical snapshot must survive every save.",
    note="GetShapePartitions is excluded from the query battery because it is not read-only; across the first default save only index-free, bounds-free, reachable content is compared "
         "(pruning and bounds are that option's documented effect)."),
